@@ -251,6 +251,15 @@ func runSysAgg(root, line string) (resp sysResp) {
 		}
 	}()
 	m := kv(strings.Fields(line)[1:])
+	switch m["limits"] { // aggregation limits of the fractions: none, the binary's defaults, small ones
+	case "prod":
+		childAggLimits = processor.AggLimits{MaxFieldTokens: 1000000, MaxGroupTokens: 2000, MaxTIDsPerFraction: 100000}
+	case "small":
+		childAggLimits = processor.AggLimits{MaxFieldTokens: 200, MaxGroupTokens: 100, MaxTIDsPerFraction: 1000}
+	default:
+		childAggLimits = processor.AggLimits{}
+	}
+	defer func() { childAggLimits = processor.AggLimits{} }()
 	type adoc struct {
 		id       seq.ID
 		svc, val string
@@ -333,10 +342,13 @@ func runSysAgg(root, line string) (resp sysResp) {
 		return
 	}
 	var a, bb []string
-	for _, fn := range []seq.AggFunc{seq.AggFuncSum, seq.AggFuncMin} {
+	for _, fn := range []seq.AggFunc{seq.AggFuncSum, seq.AggFuncMin, seq.AggFuncCount} {
 		for _, desc := range []bool{true, false} {
-			p := processor.SearchParams{AST: ast.Root, From: 0, To: seq.MID(1 << 40), Limit: 3, Order: order(desc),
-				AggQ: []processor.AggQuery{{GroupBy: &parser.Literal{Field: "service", Terms: star}, Field: &parser.Literal{Field: "request_duration", Terms: star}, Func: fn}}}
+			aq := processor.AggQuery{GroupBy: &parser.Literal{Field: "service", Terms: star}, Field: &parser.Literal{Field: "request_duration", Terms: star}, Func: fn}
+			if fn == seq.AggFuncCount {
+				aq.Field = nil
+			}
+			p := processor.SearchParams{AST: ast.Root, From: 0, To: seq.MID(1 << 40), Limit: 3, Order: order(desc), AggQ: []processor.AggQuery{aq}}
 			run := func(l fracmanager.List, per int) (string, error) {
 				q, err := fracmanager.NewSearcher(4, fracmanager.SearcherCfg{FractionsPerIteration: per}).SearchDocs(context.Background(), append(fracmanager.List(nil), l...), p)
 				if err != nil {
@@ -394,7 +406,31 @@ func genSysAgg(g gen, o vh.Opts) []string {
 		for _, idx := range layout {
 			lay = append(lay, vh.JoinInts(idx))
 		}
-		lines = append(lines, fmt.Sprintf("sysagg docs=%s layout=%s", strings.Join(docs, ","), strings.Join(lay, ";")))
+		lines = append(lines, fmt.Sprintf("sysagg limits=%s docs=%s layout=%s", []string{"0", "prod", "small"}[g.r.Intn(3)], strings.Join(docs, ","), strings.Join(lay, ";")))
+	}
+	// group-by over a field with 20-30 distinct values, each occurring several times in every fraction, under the
+	// binary's (and small) aggregation limits: the token text of a group must not depend on the fraction's TID numbering
+	for c := 0; c < o.Pick(8, 80); c++ {
+		k := g.r.Range(2, 4)
+		nvals := g.r.Range(20, 30)
+		var docs []string
+		layout := make([][]int, k)
+		mid := 1
+		for i := 0; i < nvals*g.r.Range(3, 5); i++ {
+			fr := g.r.Intn(k)
+			val := "-"
+			if g.r.Chance(2, 3) {
+				val = fmt.Sprint(g.r.Intn(30))
+			}
+			layout[fr] = append(layout[fr], len(docs))
+			docs = append(docs, fmt.Sprintf("%d:%d:s%02d:%s", mid, g.r.Intn(2), g.r.Intn(nvals), val))
+			mid += 1 + g.r.Intn(2)
+		}
+		var lay []string
+		for _, idx := range layout {
+			lay = append(lay, vh.JoinInts(idx))
+		}
+		lines = append(lines, fmt.Sprintf("sysagg limits=%s docs=%s layout=%s", []string{"prod", "prod", "small"}[g.r.Intn(3)], strings.Join(docs, ","), strings.Join(lay, ";")))
 	}
 	return lines
 }
